@@ -175,6 +175,13 @@ func finish(prop, tier string, results []*harnessResult, known map[string]bool, 
 					ok := false
 					if p.v.Kind == "panic" {
 						ok = hasLine(lines, "panic")
+					} else if strings.HasPrefix(p.v.Tag, "alloc-bounded") {
+						ok = hasLine(lines, "assert-failed alloc-bounded")
+						for _, l := range lines {
+							if strings.Contains(l, "makeslice") || strings.Contains(l, "out of memory") {
+								ok = true
+							}
+						}
 					} else {
 						ok = hasLine(lines, "assert-failed "+p.v.Tag)
 					}
